@@ -7,6 +7,21 @@ use super::lexer::{Lexer, Token, TokenKind};
 use grafeo_common::types::Value;
 use grafeo_common::utils::error::{Error, Result};
 
+/// Deepest nesting of traversals inside `from()` / `to()` the parser follows.
+///
+/// The parser is recursive descent and every later stage (translator, binder, optimizer,
+/// planner, `Drop`) walks the tree recursively as well, so unbounded nesting in the query
+/// text overflows the stack, which aborts the process instead of returning an error. 128
+/// levels stay well inside the 2 MiB stack of a spawned thread in a debug build.
+const MAX_NESTING_DEPTH: usize = 128;
+
+/// Most steps in one statement, the steps of nested traversals included.
+///
+/// The parser reads a chain of steps in a loop, but each step becomes (at least) one
+/// operator stacked on top of the previous ones in the query plan, which the later stages
+/// walk recursively.
+const MAX_STEPS: usize = 2048;
+
 /// Gremlin parser.
 pub struct Parser<'a> {
     tokens: Vec<Token>,
@@ -14,6 +29,10 @@ pub struct Parser<'a> {
     /// Source string for error reporting.
     #[allow(dead_code)]
     source: &'a str,
+    /// Number of nested traversals currently being parsed.
+    depth: usize,
+    /// Number of steps parsed so far.
+    steps: usize,
 }
 
 impl<'a> Parser<'a> {
@@ -25,6 +44,8 @@ impl<'a> Parser<'a> {
             tokens,
             position: 0,
             source,
+            depth: 0,
+            steps: 0,
         }
     }
 
@@ -96,6 +117,11 @@ impl<'a> Parser<'a> {
     }
 
     fn parse_step(&mut self) -> Result<Step> {
+        if self.steps >= MAX_STEPS {
+            return Err(self.error("Traversal has too many steps"));
+        }
+        self.steps += 1;
+
         let token = self.advance_token()?;
         match &token.kind {
             // Navigation steps
@@ -764,6 +790,16 @@ impl<'a> Parser<'a> {
     /// Parse a sub-traversal (e.g., g.V().has('name', 'Bob'))
     /// Returns the steps as a Vec<Step>
     fn parse_sub_traversal(&mut self) -> Result<Vec<Step>> {
+        if self.depth >= MAX_NESTING_DEPTH {
+            return Err(self.error("Traversal nested too deeply"));
+        }
+        self.depth += 1;
+        let steps = self.parse_sub_traversal_steps();
+        self.depth -= 1;
+        steps
+    }
+
+    fn parse_sub_traversal_steps(&mut self) -> Result<Vec<Step>> {
         // Consume 'g'
         self.expect(TokenKind::G)?;
         self.expect(TokenKind::Dot)?;
@@ -1020,5 +1056,60 @@ mod tests {
         } else {
             panic!("Expected Has step with within predicate");
         }
+    }
+
+    fn limit_error(query: &str) -> String {
+        match Parser::new(query).parse() {
+            Ok(_) => panic!("expected a limit error"),
+            Err(e) => e.to_string().lines().next().unwrap_or_default().to_string(),
+        }
+    }
+
+    #[test]
+    fn test_long_step_chain_is_an_error() {
+        let ok = format!("g.V(){}", ".out()".repeat(1000));
+        assert!(Parser::new(&ok).parse().is_ok());
+
+        for step in [".out()", ".has('age', 30)", ".dedup()", ".property('p', 1)"] {
+            let query = format!("g.V(){}", step.repeat(100_000));
+            let message = limit_error(&query);
+            assert!(message.contains("too many steps"), "{message}");
+        }
+    }
+
+    #[test]
+    fn test_deeply_nested_traversal_is_an_error() {
+        let ok = format!(
+            "g.addE('R'){}.from('a'){}",
+            ".from(g.addE('R')".repeat(50),
+            ")".repeat(50)
+        );
+        assert!(Parser::new(&ok).parse().is_ok());
+
+        for query in [
+            format!(
+                "g.addE('R'){}.from('a'){}",
+                ".from(g.addE('R')".repeat(100_000),
+                ")".repeat(100_000)
+            ),
+            format!(
+                "g.V().addE('R'){}{}",
+                ".to(g.V()".repeat(100_000),
+                ")".repeat(100_000)
+            ),
+        ] {
+            let message = limit_error(&query);
+            assert!(
+                message.contains("nested too deeply") || message.contains("too many steps"),
+                "{message}"
+            );
+        }
+        // Within the step limit the nesting limit is the one that is hit
+        let query = format!(
+            "g.addE('R'){}.from('a'){}",
+            ".from(g.addE('R')".repeat(500),
+            ")".repeat(500)
+        );
+        assert!(limit_error(&query).contains("nested too deeply"));
     }
 }
